@@ -233,7 +233,12 @@ func (i pyInt) Operator(operator Operator, operand pyObject) pyObject {
 		case GreaterThanOrEqual:
 			return newPyBool(i >= o)
 		case Modulo:
-			return i % o
+			// Python's % takes the sign of the divisor, Go's the sign of the dividend.
+			m := i % o
+			if m != 0 && (m < 0) != (o < 0) {
+				m += o
+			}
+			return m
 		case In:
 			panic("bad operator: 'in' int")
 		}
